@@ -156,4 +156,28 @@ theorem hsServer13T_ok (C : Crypto) (s : Settings) (own : Chain) (configs : List
           · intro ident hid; simp at hid
         · simp [hf, Outcome.fail] at h
 
+
+/-! ### resumed flag and Checker -/
+
+theorem wrapperR_not_resumed (certFp : Cert → Bytes) (fp : Bytes) (cr isClient : Bool) (o : Outcome) :
+    wrapperR certFp (some (fp, cr)) isClient false o = wrapper certFp (some fp) isClient o := by
+  simp [wrapperR, checkerSkips]
+
+theorem wrapperR_checkResumed (certFp : Cert → Bytes) (fp : Bytes) (isClient resumed : Bool) (o : Outcome) :
+    wrapperR certFp (some (fp, true)) isClient resumed o = wrapper certFp (some fp) isClient o := by
+  simp [wrapperR, checkerSkips]
+
+theorem wrapper_no_chain (certFp : Cert → Bytes) (fp : Bytes) (isClient : Bool) (o : Outcome) (sess : Session)
+    (hs : o.session = some sess)
+    (hnone : (if isClient then sess.serverCertChain else sess.clientCertChain) = []) :
+    (wrapper certFp (some fp) isClient o).completed = false := by
+  have hbad : checkerOk certFp fp isClient sess = false := by
+    unfold checkerOk
+    simp only
+    rw [hnone]
+  exact (wrapper_mismatch certFp fp isClient o sess hs hbad).1
+
+theorem resuming13_external (c : PskChoice) (h : c.external = true) : resuming13 (some c) = false := by
+  simp [resuming13, h]
+
 end Tls.Auth
